@@ -74,6 +74,7 @@ def run_property(prop, tier, runs, *, level="other", explanation="", assumptions
     out = Outcome()
     funcs = set()
     tot = dict(paths=0, aborted=0, nsolve=0, solve_s=0.0, obligations=0, discharged=0, sigs=0)
+    cross = dict(agree=0, disagree=0, unknown=0)
     samples = []
     bounds = []
     for run in runs:
@@ -94,6 +95,11 @@ def run_property(prop, tier, runs, *, level="other", explanation="", assumptions
         tot["obligations"] += n_obl
         tot["discharged"] += n_ok
         tot["sigs"] += len(agg.sigs)
+        for kk, vv in agg.cross.items():
+            cross[kk] = cross.get(kk, 0) + vv
+        if agg.cross.get("disagree"):
+            out.inconclusive.append(f"{run.name}: z3 and cvc5 disagree on {agg.cross['disagree']} sampled "
+                                    f"obligation(s): {agg.cross_notes[:2]}")
         rinfo = dict(run=run.name, bound=run.bound, cfg=_jsonable({k: v for k, v in run.cfg.items()}),
                      paths=agg.paths, infeasible_paths=agg.aborted, solver_calls=agg.nsolve,
                      solver_s=round(agg.solve_s, 2), wall_s=round(info.get("wall_s", 0), 2),
@@ -179,6 +185,8 @@ def run_property(prop, tier, runs, *, level="other", explanation="", assumptions
             obligations=tot["obligations"], discharged=tot["discharged"],
             exhaustive=all(r["exhaustive"] for r in out.runs) and not out.inconclusive,
             solver="z3 " + _z3v(), solver_calls=tot["nsolve"], solver_s=round(tot["solve_s"], 2),
+            second_solver=dict(solver="cvc5 1.0.3 binary, SMT-LIB export of sampled queries",
+                               sampled_queries=sum(cross.values()), **cross),
             infeasible_paths=tot["aborted"],
             functions_encoded=sorted(funcs), bounds=bounds, stubs=list(stubs), runs=out.runs,
             known_findings_hit=sorted(out.known_hits), inconclusive=out.inconclusive,
